@@ -44,13 +44,14 @@ func (l *DNSNameWildcardLeftofPublicSuffix) CheckApplies(c *x509.Certificate) bo
 }
 
 func (l *DNSNameWildcardLeftofPublicSuffix) Execute(c *x509.Certificate) *lint.LintResult {
+	// Names are judged as a set: an unparsable name only makes the result NA
+	// when no other name has a finding, wherever it sits in the list.
+	unparsable := false
 	if c.Subject.CommonName != "" && !util.CommonNameIsIP(c) {
 		domainInfo := c.GetParsedSubjectCommonName(false)
 		if domainInfo.ParseError != nil {
-			return &lint.LintResult{Status: lint.NA}
-		}
-
-		if domainInfo.ParsedDomain.SLD == "*" {
+			unparsable = true
+		} else if domainInfo.ParsedDomain.SLD == "*" {
 			return &lint.LintResult{Status: lint.Notice}
 		}
 	}
@@ -58,12 +59,16 @@ func (l *DNSNameWildcardLeftofPublicSuffix) Execute(c *x509.Certificate) *lint.L
 	parsedSANDNSNames := c.GetParsedDNSNames(false)
 	for i := range c.GetParsedDNSNames(false) {
 		if parsedSANDNSNames[i].ParseError != nil {
-			return &lint.LintResult{Status: lint.NA}
+			unparsable = true
+			continue
 		}
 
 		if parsedSANDNSNames[i].ParsedDomain.SLD == "*" {
 			return &lint.LintResult{Status: lint.Notice}
 		}
+	}
+	if unparsable {
+		return &lint.LintResult{Status: lint.NA}
 	}
 	return &lint.LintResult{Status: lint.Pass}
 }
